@@ -103,7 +103,10 @@ class HParser(FParser):
                     self.i += sub.i
                 continue
             if self.at("let"):
-                stmts.append(self.let_())
+                l_ = self.let_()
+                e_ = l_.args[1] if len(l_.args) > 1 else None
+                if not (l_.args[0] == "_" and e_ is not None and e_.op == "ref" and e_.args and e_.args[0] is not None and e_.args[0].op == "path"):
+                    stmts.append(l_)   # (`let _ = &x;` does nothing)
             elif self.at("return"):
                 self.eat()
                 e = None if self.at(";") else self.expr()
